@@ -103,7 +103,7 @@ def gen_run(rnd, cfg, allow_empty=False):
     return out
 
 
-def layouts(rnd, cfg, lexs):
+def layouts(rnd, cfg, lexs, upper_start=False):
     """returns dict name -> text; gaps where the derivation allows whitespace get a run"""
     base = ''
     varied = ''
@@ -123,11 +123,14 @@ def layouts(rnd, cfg, lexs):
                 ngaps += 1
         base += lx.text
         varied += lx.text
-    lead = gen_run(rnd, cfg) if rnd.random() < 0.5 else ''
+    lead = gen_run(rnd, cfg) if rnd.random() < 0.5 and not upper_start else ''
     trail = gen_run(rnd, cfg) if rnd.random() < 0.5 else ''
     out = dict(base=base, varied=lead + varied + trail)
     # adversarial edits (decided by the reference only)
     adv = []
+    if upper_start:
+        # an upper-case start rule skips nothing at its entry: a leading run is only accepted if the first element skips it itself
+        adv.append(gen_run(rnd, cfg) + base)
     if cfg['ws'] != 'none':
         for i, lx in enumerate(lexs):
             if i and lx.glue:
@@ -236,7 +239,8 @@ def run_layout(sh, n):
             return replace_children(e, [nodot(c) for c in children(e)])
         rules = [(nm, nodot(x)) for nm, x in rules]
         cfg = gen_config(rnd)
-        if cfg['namechars'] == '-' and rnd.random() < 0.5:
+        if (cfg['namechars'] == '-' and rnd.random() < 0.5) or (cfg['namechars'] != '-' and rnd.random() < 0.2):
+            # (also without the name character: the same token text is then not a name, whatever an earlier parse in this process decided)
             # a word token containing the name character
             def tk(e):
                 if e[0] == 'tok' and e[1] == 'a':
@@ -244,6 +248,13 @@ def run_layout(sh, n):
                 return replace_children(e, [tk(c) for c in children(e)])
             rules = [(nm, tk(x)) for nm, x in rules]
         directives, settings, refkw = config_texts(cfg)
+        upper_start = rnd.random() < 0.25
+        if upper_start:
+            def rn(e):
+                if e[0] == 'call' and e[1] == rules[0][0]:
+                    return ('call', 'Top')
+                return replace_children(e, [rn(c) for c in children(e)])
+            rules = [('Top' if i == 0 else nm, rn(x)) for i, (nm, x) in enumerate(rules)]
         start = rules[0][0]
         gtext = tu.wrapped_text(grammar_text(rules, directives), start)
         try:
@@ -257,12 +268,14 @@ def run_layout(sh, n):
             lx = gen.derive(rnd, rmap, rmap[start])
             if rnd.random() < 0.2:
                 lx = gen.near_miss(rnd, lx)
-            texts, ngaps = layouts(rnd, cfg, lx)
+            texts, ngaps = layouts(rnd, cfg, lx, upper_start)
             d, info = check_layout(rules, cfg, texts, model)
             cls = [f'ws:{cfg["ws"]}', f'nameguard:{cfg["nameguard"]}', f'namechars:{cfg["namechars"]!r}', f'ignorecase:{cfg["ignorecase"]}',
                    'comments' if cfg['comments'] else 'no-comments', 'eol_comments' if cfg['eolc'] else 'no-eol-comments', f'base:{info.get("base")}']
             if info.get('adv_judged'):
                 cls.append('adversarial-judged')
+            if upper_start:
+                cls.append('upper-case start rule')
             sh.case((gtext, str(sorted(settings.items())), texts['base'], texts['varied']), ngaps >= 2 or bool(info.get('adv_judged')), cls,
                     sample=dict(grammar=grammar_text(rules, directives), settings=settings, layouts=texts))
             if d is not None:
